@@ -101,10 +101,44 @@ def addcommands_rule(ctx, r3='C04.R3', r4='C04.R4'):
                                'down to it, recover = the reverse)' % (what, getattr(x, 'p', x), want))
 
 
+def recorded_amount(col, gcode, paths, I, rule):
+    """a retraction record created on a G0/G1 path stores the native (mm) length the move retracted: E before - E after"""
+    from .pathfacts import Facts, S_OID
+    eoid = '%s.position.E_AXIS' % S_OID
+    for p in paths:
+        f = Facts(p, I)
+        if f.raised:
+            continue
+        created = [e[2] for e in p.st.trace if e[0] == 'new' and e[1] == 'RetractionState']
+        for oid in created:
+            fw = live_alts(p.st, p.st.heap.get((oid, 'firmwareRetract')))
+            if fw != [False]:
+                continue
+            col.instance(rule, (gcode, f.describe(), tuple(f.decisions()[-3:])))
+            before = S(eoid + '.current')
+            for after in f.final(eoid, 'current'):
+                if not isinstance(after, Num):
+                    continue
+                want = before - after.p
+                for amt in live_alts(p.st, p.st.heap.get((oid, 'extrusionAmount'))):
+                    if not (isinstance(amt, Num) and amt.p == want):
+                        col.report(rule, 'ExcludeRegionState._processNonMove', 'recorded retraction length %r' % (getattr(amt, 'p', amt),),
+                                   'the retraction record must hold the native (mm) distance the move retracted, %r: the owed recovery '
+                                   'is generated later, possibly after the file changed units' % (want,),
+                                   detail={'entry': p.entry, 'decisions': f.decisions()[-6:]})
+
+
+def recorded_amount_c04(col, gcode, paths, I):
+    declare(col)
+    recorded_amount(col, gcode, paths, I, 'C04.R4')
+
+
 def run(ctx, tier):
     declare(ctx)
     machine_rule(ctx, tier)
     addcommands_rule(ctx)
+    from .handlers import run_path_rules
+    run_path_rules(ctx, __name__, 'recorded_amount_c04', ['G0', 'G1'], unroll=1)
     ctx.assume('absolute extrusion mode, matched equal-length E-only or firmware cycles (the property quantifier); tracked E '
                'follows the file (C01.R6 / C19.R4); scripts and deferred codes do not touch E')
     ctx.assume('a printing move that leaves a region is re-positioned without extruding (documented behaviour)')
